@@ -525,3 +525,216 @@ Definition stmt_names (st : statement) (action bucket : string) : bool :=
 
 Definition named (doc : list statement) (action bucket : string) : bool :=
   existsb (fun st => stmt_names st action bucket) doc.
+
+(* ====================================================================================
+   Handler-level verification (the three handlers that verify what authRequest lets
+   through unchecked):
+     PutObjectHandler / PutObjectPartHandler  s3api_object_handlers.go, s3api_object_multipart_handlers.go
+         -> newSignV4ChunkedReader -> calculateSeedSignature (chunked_reader_v4.go)
+     PostPolicyBucketHandler                  s3api_object_handlers_postpolicy.go
+         -> doesPolicySignatureMatch (V2: auth_signature_v2.go, V4: auth_signature_v4.go)
+   ==================================================================================== *)
+
+(* strings.Replace(v4Auth, " ", "", -1) *)
+Fixpoint remove_spaces (s : string) : string :=
+  match s with
+  | EmptyString => EmptyString
+  | String c s' => if Ascii.eqb c " " then remove_spaces s' else String c (remove_spaces s')
+  end.
+
+(* strconv.Atoi on a string of decimal digits (the route guarantees [0-9]+) *)
+Fixpoint digits_value (acc : N) (s : string) : N :=
+  match s with
+  | EmptyString => acc
+  | String c s' => digits_value (acc * 10 + (N_of_ascii c - 48))%N s'
+  end.
+
+Definition globalMaxPartID : N := 100000%N.
+
+(* what the body of a POST carries (the harness builds it; an input of the case) *)
+Inductive form_state :=
+| NoForm                                   (* no parsable multipart/form-data body *)
+| FormNoFile                               (* form without a file part and without policy / credential fields *)
+| FormPolicy (v2 : bool) (pc : claim).     (* form with a file and a signed policy: V2 (Signature field) or V4;
+                                              pc says how the POLICY was signed; Expired = policy expiration passed *)
+
+(* the environment of a request: what the filer stand-in holds and what the body carries *)
+Record env := {
+  e_upload_exists : bool;
+  e_form : form_state;
+  e_client_idhdr : string * bool      (* s3-identity-id value / s3-is-admin present, AS SENT BY THE CLIENT *)
+}.
+
+(* the identity headers the handler sees: Auth only SETS them (identity with a name: the
+   name; admin identity: s3-is-admin) and never removes what the client sent *)
+Definition seen_id_header (d : decision) (e : env) : string * bool :=
+  match d with
+  | Run (Some id) =>
+      if String.eqb (id_name id) "" then e_client_idhdr e
+      else (id_name id, is_admin (id_actions id) || snd (e_client_idhdr e))
+  | _ => e_client_idhdr e
+  end.
+
+(* responses the three handlers produce before anything is sent to the filer *)
+Inductive herr :=
+| HAuth (e : err)
+| HAuthHeaderEmpty | HSigVersionNotSupported | HAuthNotSetup
+| HMalformedPOST | HPOSTFileRequired | HPolicyRedirect
+| HNoSuchUpload | HInvalidMaxParts.
+
+Definition herr_resp (h : herr) : N * string :=
+  match h with
+  | HAuth e => api_error e
+  | HAuthHeaderEmpty => (400%N, "InvalidArgument")
+  | HSigVersionNotSupported => (400%N, "InvalidRequest")
+  | HAuthNotSetup => (400%N, "InvalidRequest")
+  | HMalformedPOST => (400%N, "MalformedPOSTRequest")
+  | HPOSTFileRequired => (400%N, "InvalidArgument")
+  | HPolicyRedirect => (307%N, "")
+  | HNoSuchUpload => (404%N, "NoSuchUpload")
+  | HInvalidMaxParts => (400%N, "InvalidArgument")
+  end.
+
+(* GPass who: the handler's own verification is passed (who = the identity it verified,
+   None = it verifies nothing); it goes on to the filer *)
+Inductive gate := GReject (h : herr) | GPass (who : option identity).
+
+(* calculateSeedSignature: parseSignV4, lookupByAccessKey, canDo("Write", bucket), compare.
+   No freshness check of the date (as for every header signature). *)
+Definition seed_verify (ids : list identity) (r : request) (c : claim) : gate :=
+  let a := remove_spaces (hdr_authz r) in
+  if String.eqb a "" then GReject HAuthHeaderEmpty
+  else if negb (sprefix signV4Algorithm a) then GReject HSigVersionNotSupported
+  else match cl_damage c with
+       | Malformed => GReject (HAuth ErrMissingFields)
+       | d =>
+           match lookup_by_access_key ids (cl_ak c) with
+           | None => GReject (HAuth ErrInvalidAccessKeyID)
+           | Some (id, secret) =>
+               if can_do (id_actions id) ACTION_WRITE (rq_bucket r) then
+                 if String.eqb secret (cl_secret c) && sig_fresh false d then GPass (Some id)
+                 else GReject (HAuth ErrSignatureDoesNotMatch)
+               else GReject (HAuth ErrAccessDenied)
+           end
+       end.
+
+(* doesPolicySignatureMatch + CheckPostPolicy's expiration test.  NO canDo. *)
+Definition policy_verify (ids : list identity) (v2 : bool) (pc : claim) : gate :=
+  match cl_damage pc, v2 with
+  | Malformed, false => GReject (HAuth ErrMissingFields)      (* parseCredentialHeader *)
+  | d, _ =>
+      match lookup_by_access_key ids (cl_ak pc) with
+      | None => GReject (HAuth ErrInvalidAccessKeyID)
+      | Some (id, secret) =>
+          if String.eqb secret (cl_secret pc) && match d with Intact | Expired => true | _ => false end then
+            match d with Expired => GReject HPolicyRedirect | _ => GPass (Some id) end
+          else GReject (HAuth ErrSignatureDoesNotMatch)
+      end
+  end.
+
+Definition PUT_OBJECT_PART_IDX : N := 3%N.
+Definition PUT_OBJECT_IDX : N := 13%N.
+Definition POST_POLICY_IDX : N := 20%N.
+
+(* PutObjectHandler's switch over getRequestAuthType (V2/V4 types are verified a second
+   time with the same functions Auth used: they pass again) *)
+Definition put_object_gate (ids : list identity) (r : request) (c : claim) (w : option identity) : gate :=
+  match get_request_auth_type r with
+  | StreamingSigned => match ids with [] => GReject HAuthNotSetup | _ => seed_verify ids r c end
+  | _ => GPass w
+  end.
+
+Definition put_object_part_gate (ids : list identity) (r : request) (c : claim) (e : env) (w : option identity) : gate :=
+  if negb (e_upload_exists e) then GReject HNoSuchUpload          (* s3a.exists: a filer LOOKUP, before any verification *)
+  else if (globalMaxPartID <? digits_value 0 (match query_get "partNumber" (rq_query r) with Some v => v | None => "" end))%N
+       then GReject HInvalidMaxParts
+  else match get_request_auth_type r with
+       | StreamingSigned => match ids with [] => GPass w | _ => seed_verify ids r c end
+       | _ => GPass w
+       end.
+
+Definition post_policy_gate (ids : list identity) (e : env) : gate :=
+  match e_form e with
+  | NoForm => GReject HMalformedPOST
+  | FormNoFile => GReject (HAuth ErrMissingFields)   (* no file part at all: extractPostPolicyFormValues makes up an empty
+                                                        file; the harness's file-less form has no credential fields either,
+                                                        so doesPolicySignatureV4Match fails in parseCredentialHeader *)
+  | FormPolicy v2 pc => policy_verify ids v2 pc
+  end.
+
+(* what the handler behind route i does with a request Auth let through with identity w *)
+Definition handler_gate (ids : list identity) (r : request) (c : claim) (e : env) (i : N) (w : option identity) : gate :=
+  if (i =? PUT_OBJECT_IDX)%N then put_object_gate ids r c w
+  else if (i =? PUT_OBJECT_PART_IDX)%N then put_object_part_gate ids r c e w
+  else if (i =? POST_POLICY_IDX)%N then post_policy_gate ids e
+  else GPass w.
+
+(* Auth followed by the handler's own verification: Some w = the request goes on to the
+   filer (data path), w = the identity that was verified last *)
+Definition takes_effect (ids : list identity) (r : request) (c : claim) (e : env) (i : N) : option (option identity) :=
+  match route_decision ids r c i with
+  | Reject _ => None
+  | Run w => match handler_gate ids r c e i w with GReject _ => None | GPass w' => Some w' end
+  end.
+
+(* ---------- reference specifications at the handler level ---------- *)
+Definition find_cred_spec (ids : list identity) (ak : string) : option (identity * string * string) :=
+  find (fun e => String.eqb (snd (fst e)) ak) (cred_table ids).
+
+(* valid V4 streaming seed signature of an identity allowed to Write the bucket *)
+Definition seed_spec (ids : list identity) (r : request) (c : claim) : bool :=
+  sprefix signV4Algorithm (remove_spaces (hdr_authz r)) &&
+  match find_cred_spec ids (cl_ak c) with
+  | Some (id, _, secret) =>
+      String.eqb secret (cl_secret c) && sig_fresh false (cl_damage c) && allows (id_actions id) ACTION_WRITE (rq_bucket r)
+  | None => false
+  end.
+
+(* valid POST policy signature (inside its expiration) of some configured identity *)
+Definition policy_signer (ids : list identity) (f : form_state) : option identity :=
+  match f with
+  | FormPolicy _ pc =>
+      match find_cred_spec ids (cl_ak pc) with
+      | Some (id, _, secret) =>
+          if String.eqb secret (cl_secret pc) && match cl_damage pc with Intact => true | _ => false end
+          then Some id else None
+      | None => None
+      end
+  | _ => None
+  end.
+
+Definition policy_spec (ids : list identity) (r : request) (f : form_state) : bool :=
+  match policy_signer ids f with
+  | Some id => allows (id_actions id) ACTION_WRITE (rq_bucket r)
+  | None => false
+  end.
+
+(* the property's right-hand side for route i, all signature kinds of the property text *)
+Definition effect_authorized_spec (ids : list identity) (r : request) (c : claim) (e : env) (i : N) : bool :=
+  let t := get_request_auth_type r in
+  match nth_error route_table (N.to_nat i) with
+  | Some rt =>
+      authorized_spec ids t c (rt_action rt) (rq_bucket r) ||
+      (match t with StreamingSigned => true | _ => false end &&
+       ((i =? PUT_OBJECT_IDX)%N || (i =? PUT_OBJECT_PART_IDX)%N) && seed_spec ids r c) ||
+      (match t with PostPolicy => true | _ => false end && (i =? POST_POLICY_IDX)%N && policy_spec ids r (e_form e))
+  | None => authenticated_spec ids t c
+  end.
+
+(* ---------- narrowed trigger sets ----------
+   finding 0: a bypass-type request on a route whose handler verifies nothing itself
+              (every route but PutObject / PostPolicy; PutObjectPart: its filer lookup runs
+              before the seed verification, so it stays inside unless the seed is valid)
+   finding 1: a POST policy upload validly signed by an identity that may NOT Write the bucket *)
+Definition trigger0 (ids : list identity) (r : request) (c : claim) (i : N) : bool :=
+  bypass_type (get_request_auth_type r) &&
+  negb ((i =? PUT_OBJECT_IDX)%N || (i =? POST_POLICY_IDX)%N) &&
+  negb ((i =? PUT_OBJECT_PART_IDX)%N && seed_spec ids r c).
+
+Definition trigger1 (ids : list identity) (r : request) (e : env) (i : N) : bool :=
+  match get_request_auth_type r with PostPolicy => true | _ => false end &&
+  (i =? POST_POLICY_IDX)%N &&
+  match policy_signer ids (e_form e) with
+  | Some id => negb (allows (id_actions id) ACTION_WRITE (rq_bucket r))
+  | None => false
+  end.
